@@ -10,7 +10,7 @@ from lsst.daf.relation import sql
 import core
 import enc
 import multiprog as mp
-from enc import clist, ctree, jsonable
+from enc import K, clist, ctree, jsonable
 
 THEOREMS = ["C15_transfer_roundtrip_keeps_content", "C15_materialize_adds_none_over_locked",
             "C15_backtracking_never_enters_locked", "C15_finish_apply_keeps_target_subtree"]
@@ -175,12 +175,51 @@ def make_cases(rng, tier):
     return cases, bad
 
 
+def materialize_of_locked():
+    """materialized() on a leaf or on an already materialized relation returns it without a new materialization — for
+    every kind of leaf: with a payload, constructed without one, doomed / join-identity leaves of engines whose trivial
+    payloads are None, leaves seen through the SQL engine's SELECT wrapper, and after a transfer there and back."""
+    from lsst.daf.relation import iteration, sql
+    a = K(1)
+    bad = []
+
+    class Bare(iteration.Engine):
+        def get_doomed_payload(self, columns):
+            return None
+
+        def get_join_identity_payload(self):
+            return None
+    it, it2, bare, sq = iteration.Engine(name="ml_it"), iteration.Engine(name="ml_it2"), Bare(name="ml_bare"), sql.Engine(name="ml_sql")
+    full = it.make_leaf({a}, payload=iteration.RowSequence([{a: 1}]), name="full")
+    subjects = [
+        ("leaf with a payload", full),
+        ("leaf constructed with payload=None", dr.LeafRelation(it, frozenset({a}), payload=None, name="pending")),
+        ("doomed leaf whose payload is None", bare.make_doomed_relation({a}, ["x"])),
+        ("join-identity leaf whose payload is None", bare.make_join_identity_relation()),
+        ("SQL leaf constructed with payload=None, in its SELECT wrapper", sq.conform(dr.LeafRelation(sq, frozenset({a}), payload=None, name="sqlpending"))),
+        ("payload-less leaf after a transfer there and back", dr.LeafRelation(it, frozenset({a}), payload=None, name="p2").transferred_to(it2).transferred_to(it)),
+        ("an existing materialization", full.with_rows_satisfying(dr.ColumnExpression.reference(a).gt(dr.ColumnExpression.literal(0))).materialized(name="ml_m")),
+    ]
+    for what, rel in subjects:
+        try:
+            out = rel.materialized(name="ml_new")
+        except Exception as e:  # noqa: BLE001
+            bad.append({"relation": what, "problem": f"materialized() raised {type(e).__name__}"})
+            continue
+        n_in = sum(isinstance(x, dr.Materialization) for x in nodes(rel))
+        n_out = sum(isinstance(x, dr.Materialization) for x in nodes(out))
+        if n_out != n_in:
+            bad.append({"relation": what, "input": str(rel), "returned": str(out), "problem": "materializing it added a materialization"})
+    return len(subjects), bad
+
+
 def run(ctx):
     rng = random.Random(ctx.seed)
     s1 = core.s1(ctx, ["Slice"], "Properties.C15", THEOREMS, extra_targets=["Model/CheckStruct.vo"])
     cases, bad = make_cases(rng, ctx.tier)
     found = False
-    for b in bad[:3]:
+    nml, mlbad = materialize_of_locked()
+    for b in bad[:3] + mlbad[:2]:
         found |= ctx.failing_case({"kind": "locked-node-or-simplification", "case": b}, None)
     bits = {4: "a locked node (leaf or materialization) of an input reappears in the output with a different upstream tree"}
     summ = core.judge(ctx, cases, HDR, "check_locked", bits=bits)
